@@ -25,6 +25,20 @@ class NumEval(ArithEval):
         return self._ev(t)
 
     def _ev(self, t):
+        if isinstance(t, tuple) and t and t[0] == "field" and str(t[2]) == "0":
+            b = self.ev(t[1])
+            if isinstance(b, dict) and "0" not in b and "x" in b:
+                return b                   # Point(c).0 where the witness stores the coordinate itself
+            if isinstance(b, dict) and "0" in b:
+                return b["0"]
+            if isinstance(b, (list, tuple)):
+                return b[0]
+            if isinstance(b, Enum):
+                return b.payload[0]
+        if isinstance(t, tuple) and t and t[0] == "field" and str(t[2]) in ("x", "y"):
+            b0 = self.ev(t[1])
+            if isinstance(b0, (list, tuple)) and len(b0) == 2 and not isinstance(b0[0], (dict, list, tuple)):
+                return b0[0 if str(t[2]) == "x" else 1]
         if isinstance(t, tuple) and t and t[0] == "constitem":
             consts = self.__dict__.get("consts") or {}
             if t[1] in consts:
